@@ -431,6 +431,7 @@ class Verifier(Engine):
         if h is None or h.kind != "dict":
             raise Unsupported("dict literal without a `locals` type hint")
         d = self.new_dict(h)
+        first = True
         for k, v in zip(n.keys, n.values):
             if k is None:
                 src = self.ev(v)          # {**other}
@@ -438,10 +439,31 @@ class Verifier(Engine):
                     src = self.ext_value(src.p)
                 if isinstance(src, Py) or src.ty.kind != "dict" or [sort_of(a) for a in src.ty.args[:2]] != [sort_of(a) for a in h.args[:2]]:
                     raise Unsupported("dict unpacking of %r" % (src,))
-                self.dict_copy_into(d, src)
+                if first:
+                    self.dict_copy_into(d, src)      # {**src, ...}: starts as a copy
+                else:
+                    self.dict_update_from(d, src)    # {..., **src}: src's entries are added / override
             else:
                 self.dict_set(d, self.ev_v(k), self.ev_v(v))
+            first = False
         return d
+
+    def dict_update_from(self, d, src):
+        """d.update(src): keys of src are added, their values override; everything else is kept."""
+        dk, ds, mk, ms = self.dict_keys(d.ty)
+        KT = d.ty.args[0]
+        dom_d, map_d = self.dict_dom(d), self.dict_map(d)
+        dom_s, map_s = self.dict_dom(src), self.dict_map(src)
+        ndom = self.fresh("udom", dom_d.sort())
+        nmap = self.fresh("umap", map_d.sort())
+        k = self.fresh("k", sort_of(KT))
+        self.assume(z3.ForAll([k], AND(z3.Select(ndom, k) == OR(z3.Select(dom_d, k), z3.Select(dom_s, k)),
+                                      z3.Select(nmap, k) == z3.If(z3.Select(dom_s, k), z3.Select(map_s, k), z3.Select(map_d, k)))))
+        self.hset(dk, z3.Store(self.hget(dk, ds), d.t, ndom))
+        self.hset(mk, z3.Store(self.hget(mk, ms), d.t, nmap))
+        c = self.fresh("card", z3.IntSort())
+        self.assume(AND(c >= self.card(d), c >= self.card(src), c <= self.card(d) + self.card(src)))
+        self.set_card(d, c)
 
     def dict_copy_into(self, d, src):
         dk, ds, mk, ms = self.dict_keys(d.ty)
